@@ -14,7 +14,8 @@ CONFIGS = {
 UMAX = {8: 255, 16: 65535}
 C05_BOUNDS = {
     "quick": {"contract_shapes(width,depth)": [(1, 1), (2, 2), (3, 2), (2, 3), (3, 3)], "v": [0, 1], "configs(max_count,num_reserved)": {k: v[:2] for k, v in CONFIGS.items()}},
-    "thorough": {"contract_shapes(width,depth)": [(w, d) for w in (1, 2, 3, 4) for d in (1, 2, 3, 4)] + [(2, 8), (8, 2)], "v": [0, 1, 2, 3], "configs(max_count,num_reserved)": CONFIGS},
+    "thorough": {"contract_shapes(width,depth)": [(w, d) for w in (1, 2, 3, 4) for d in (1, 2, 3)] + [(1, 4), (2, 4), (8, 2)], "deep_shapes_cell_level_only": [(3, 4), (4, 4), (2, 8), (4, 8), (8, 8)],
+                 "v": [0, 1, 2, 3], "configs(max_count,num_reserved)": CONFIGS},
 }
 
 
@@ -394,17 +395,20 @@ def log_contract_clauses(h):
             oldc, newc = pre[sk.cms.sid][r * w + c], post.heap[sk.cms.sid][r * w + c]
             per.append(z3.Or(newc == oldc, colk[r] == c))
             spec.append(newc == z3.If(z3.And(colk[r] == c, z3.ULT(oldc, new_k)), new_k, oldc))
-    cl.append(("only the key's own counter may change in each row", z3.And(*per)))
-    cl.append(("cell-level spec: cell' = max(cell, new smallest counter) at the key's column", z3.And(*spec)))
+    for r in range(d):
+        cl.append((f"row {r}: only the key's own counter may change", z3.And(*per[r * w:(r + 1) * w])))
+        cl.append((f"row {r}: cell-level spec: cell' = max(cell, new smallest counter) at the key's column", z3.And(*spec[r * w:(r + 1) * w])))
     return cl
 
 
-def ob_log_add_contract(bits, width, depth, timeout_ms):
+def ob_log_add_contract(bits, width, depth, timeout_ms, cells_only=False):
     stats = common.Stats()
     h = log_contract_harness(bits, width, depth)
     post = h["post"]
     assume = list(post.pc) + h["book"].range_constraints()
     clauses = log_contract_clauses(h)
+    if cells_only:
+        clauses = [c for c in clauses if c[0].startswith("row ") or c[0].startswith("n_") or c[0].startswith("_log_counter is called") or c[0].startswith("key's new smallest")]
     for i, (kind, cond) in enumerate(cmh.safety_goals(post)):
         clauses.append((f"safety[{i}] {kind}", z3.Not(cond)))
     funcs = sorted(h["ex"].funcs_encoded)
@@ -451,6 +455,9 @@ def c05_obligations(tier):
         for (w, d) in b["contract_shapes(width,depth)"]:
             obs.append(common.Ob(f"log{bits} add step (callee contract), width {w} depth {d}", ob_log_add_contract, (bits, w, d, tmo), hard_s=tmo / 1000 * 12 + 120,
                                  bounds={"bits": bits, "width": w, "depth": d, "num_reserved": "symbolic", "v": "all uint64", "table": "arbitrary"}))
+        for (w, d) in b.get("deep_shapes_cell_level_only", []):
+            obs.append(common.Ob(f"log{bits} add step (callee contract, cell-level clauses), width {w} depth {d}", ob_log_add_contract, (bits, w, d, tmo, True), hard_s=tmo / 1000 * 12 + 120,
+                                 bounds={"bits": bits, "width": w, "depth": d, "clauses": "cell-level"}))
         for cfg in b["configs(max_count,num_reserved)"][bits]:
             for v in b["v"]:
                 obs.append(common.Ob(f"log{bits} add end-to-end (real _log_counter inlined), 1x1, cfg {cfg}, v={v}", ob_log_step, (bits, 1, 1, tuple(cfg), v, tmo),
